@@ -41,6 +41,7 @@ type Task struct {
 	site    int32
 	depth   int32
 	kill    bool
+	bootAcq bool
 	stall   time.Duration
 	Panic   interface{}
 	Stack   string
@@ -82,6 +83,7 @@ type Sim struct {
 	Stats      Stats
 
 	// node life-cycle
+	BootDone   bool // set by the driver once the collector serves traffic (race build: boot happens-before steady state)
 	Exited     bool
 	ExitCode   int
 	ExitAt     time.Duration
@@ -118,6 +120,8 @@ type Stats struct {
 var (
 	cur    *Sim
 	genCtr uint64
+	// DbgRel / DbgAcq count boot-barrier operations (diagnostics)
+	DbgRel, DbgAcq int
 )
 
 // Cur returns the running simulation (nil outside runs: pass-through mode).
@@ -125,6 +129,7 @@ func Cur() *Sim { return cur }
 
 // New creates a simulation. Must be called inside the bubble.
 func New(ch *Choices) *Sim {
+	runAcquire() // the previous run in this process happened before this one
 	genCtr++
 	s := &Sim{
 		arrive:   make(chan struct{}, 1),
@@ -230,6 +235,15 @@ func (s *Sim) park(t *Task, site int) {
 			raceEnable()
 			runtime.Goexit()
 		}
+		if RaceBuild {
+			raceEnable()
+			runRelease()
+			if !s.BootDone && !t.Harness {
+				bootRelease()
+				DbgRel++
+			}
+			raceDisable()
+		}
 		s.mu.Lock()
 		t.state = tParked
 		t.site = int32(site)
@@ -239,6 +253,13 @@ func (s *Sim) park(t *Task, site int) {
 		default:
 		}
 		<-t.wake
+		if RaceBuild && s.BootDone && !t.bootAcq && !t.Harness {
+			t.bootAcq = true
+			raceEnable()
+			bootAcquire()
+			raceDisable()
+			DbgAcq++
+		}
 		if s.tearing || t.kill {
 			t.state = tDone
 			raceEnable()
